@@ -160,3 +160,127 @@ pub fn ev_unary<S: Source>(s: &mut S) {
 fn c08_ev_unary() {
     ev_unary(&mut crate::source::KaniSource);
 }
+
+// ------------------------------------------------------------------------------------------------
+// if-expressions
+
+fn build_if(children: &[Child; 7], branches: u8) -> IfExpression {
+    let base = IfExpression::new(
+        child_expression(0, children[0]),
+        child_expression(1, children[1]),
+        child_expression(6, children[6]),
+    );
+    match branches {
+        0 => base,
+        1 => base.with_branch(child_expression(2, children[2]), child_expression(3, children[3])),
+        _ => base
+            .with_branch(child_expression(2, children[2]), child_expression(3, children[3]))
+            .with_branch(child_expression(4, children[4]), child_expression(5, children[5])),
+    }
+}
+
+/// slots: 0 condition, 1 result, (2,3) first elseif, (4,5) second elseif, 6 else result
+fn any_if_children<S: Source>(s: &mut S) -> [Child; 7] {
+    let mut children = [any_child(s); 7];
+    let mut i = 1;
+    while i < 7 {
+        children[i] = any_child(s);
+        i += 1;
+    }
+    let mut ok = true;
+    for child in &children {
+        ok &= realisable(*child);
+    }
+    s.assume(ok);
+    children
+}
+
+/// The value Lua computes, and whether executing the if-expression calls out.
+fn if_semantics(children: &[Child; 7], branches: u8) -> (V, bool) {
+    let mut effects = children[0].effects;
+    if children[0].operand.actual.truthy() {
+        return (children[1].operand.actual, effects || children[1].effects);
+    }
+    let mut b = 0;
+    while b < branches {
+        let (condition, result) = (children[2 + 2 * b as usize], children[3 + 2 * b as usize]);
+        effects |= condition.effects;
+        if condition.operand.actual.truthy() {
+            return (result.operand.actual, effects || result.effects);
+        }
+        b += 1;
+    }
+    (children[6].operand.actual, effects || children[6].effects)
+}
+
+/// H-EV-if: `evaluate_if` with 0, 1 or 2 elseif branches.
+fn ev_if<S: Source>(s: &mut S, branches: u8) {
+    let children = any_if_children(s);
+    let (evaluator, _pure) = any_evaluator(s);
+    let if_expression = build_if(&children, branches);
+    #[cfg(kani)]
+    let result = evaluator.verif_evaluate_if(&if_expression);
+    #[cfg(not(kani))]
+    let result = evaluator.evaluate(&Expression::from(if_expression.clone()));
+    let (value, _) = if_semantics(&children, branches);
+    note!(s, "evaluate({:?}) = {:?} ; Lua yields {:?}", if_expression, result, value);
+    witness!(!matches!(result, LuaValue::Unknown), "if-expression folds");
+    witness!(matches!(result, LuaValue::Unknown), "if-expression stays unknown");
+    witness!(branches == 0 || (!children[0].operand.actual.truthy() && children[2].operand.actual.truthy() && !matches!(result, LuaValue::Unknown)), "an elseif branch is selected");
+    claim!(s, sound(&result, value), "if-expression: a definite result is the value of the branch Lua selects");
+    core::mem::forget(if_expression);
+}
+pub fn ev_if_0<S: Source>(s: &mut S) {
+    ev_if(s, 0)
+}
+pub fn ev_if_1<S: Source>(s: &mut S) {
+    ev_if(s, 1)
+}
+pub fn ev_if_2<S: Source>(s: &mut S) {
+    ev_if(s, 2)
+}
+
+/// H-SE-if: `if_expression_has_side_effects` never misses an effect of the branch taken.
+fn se_if<S: Source>(s: &mut S, branches: u8) {
+    let children = any_if_children(s);
+    let (evaluator, _pure) = any_evaluator(s);
+    let if_expression = build_if(&children, branches);
+    #[cfg(kani)]
+    let result = evaluator.verif_if_expression_has_side_effects(&if_expression);
+    #[cfg(not(kani))]
+    let result = evaluator.has_side_effects(&Expression::from(if_expression.clone()));
+    let (_, effects) = if_semantics(&children, branches);
+    note!(s, "has_side_effects({:?}) = {} ; executing it calls out: {}", if_expression, result, effects);
+    witness!(result, "if-expression reported with side effects");
+    witness!(!result, "if-expression reported free of side effects");
+    claim!(s, result || !effects, "if-expression: declared free of side effects only if the branch Lua takes makes no call");
+    core::mem::forget(if_expression);
+}
+pub fn se_if_0<S: Source>(s: &mut S) {
+    se_if(s, 0)
+}
+pub fn se_if_1<S: Source>(s: &mut S) {
+    se_if(s, 1)
+}
+pub fn se_if_2<S: Source>(s: &mut S) {
+    se_if(s, 2)
+}
+
+macro_rules! if_step_proof {
+    ($name:ident, $body:ident) => {
+        #[cfg(kani)]
+        #[kani::proof]
+        #[kani::unwind(9)]
+        #[kani::stub(darklua_core::process::Evaluator::evaluate, crate::lua::evaluate_stub)]
+        #[kani::stub(darklua_core::process::Evaluator::has_side_effects, crate::lua::has_side_effects_stub)]
+        fn $name() {
+            $body(&mut crate::source::KaniSource);
+        }
+    };
+}
+if_step_proof!(c08_ev_if_0, ev_if_0);
+if_step_proof!(c08_ev_if_1, ev_if_1);
+if_step_proof!(c08_ev_if_2, ev_if_2);
+if_step_proof!(c08_se_if_0, se_if_0);
+if_step_proof!(c08_se_if_1, se_if_1);
+if_step_proof!(c08_se_if_2, se_if_2);
